@@ -90,13 +90,19 @@ func TestVerifC02(t *testing.T) {
 					items = append(items, item{"snapshot", id, plain})
 				}
 				setupErr = repo.WithBlobUploader(ctx, func(ctx context.Context, up restic.BlobSaverWithAsync) error {
-					for i := 0; i < 6; i++ {
+					for i := 0; i < 9; i++ {
 						var db []byte
 						switch i {
 						case 0:
 							db = make([]byte, chunker.MinSize) // the all-zero minimum-size chunk (hash shortcut)
 						case 1:
 							db = []byte{}
+						case 6, 7:
+							// other all-zero blobs: compressed they are stored with the same length as the zero chunk
+							db = make([]byte, []int{500000, 480000}[i-6])
+						case 8:
+							// same plaintext length as blob 5: same stored length without compression
+							db = hk.Content(st, 100+5*2500, 0)
 						default:
 							db = hk.Content(st, 100+i*2500, i%3)
 						}
@@ -174,12 +180,59 @@ func TestVerifC02(t *testing.T) {
 				}
 				sort.Strings(truth[id])
 			}
+			// a ranged read may be answered with the bytes of another blob of the same pack and the same stored length
+			store.AltRange = func(h backend.Handle, offset int64, length int, arg int) (int64, bool) {
+				if h.Type != backend.PackFile {
+					return 0, false
+				}
+				pc := view.Packs[h.Name]
+				if pc == nil {
+					return 0, false
+				}
+				var cands []int64
+				for _, b := range pc.Blobs {
+					if int(b.Length) == length && int64(b.Offset) != offset {
+						cands = append(cands, int64(b.Offset))
+					}
+				}
+				if len(cands) == 0 {
+					return 0, false
+				}
+				return cands[arg%len(cands)], true
+			}
+			var twins []int
+			for i, it := range items {
+				if it.kind != "data" && it.kind != "tree" {
+					continue
+				}
+				pc := view.Packs[packOf[it.kind+"/"+it.id.String()]]
+				if pc == nil {
+					continue
+				}
+				var me *model.Blob
+				for k := range pc.Blobs {
+					if pc.Blobs[k].Key() == it.kind+"/"+it.id.String() {
+						me = &pc.Blobs[k]
+					}
+				}
+				for _, b := range pc.Blobs {
+					if me != nil && b.Length == me.Length && b.Offset != me.Offset {
+						twins = append(twins, i)
+						break
+					}
+				}
+			}
+			r.Count("blobs_with_same_length_sibling", len(twins))
 			// read faults
 			cl.F = simbe.Faults{CorruptRead: rate, Budget: budget}
 			ctx := context.Background()
 			s.Do("reader", proc, func() {
 				for k := 0; k < nOps && !r.Failed(); k++ {
 					it := items[tp.Choose(len(items))]
+					if len(twins) > 0 && tp.Choose(3) == 2 {
+						// blobs that have a sibling of the same stored length in their pack (targets of misdirected ranges)
+						it = items[twins[tp.Choose(len(twins))]]
+					}
 					fired0 := s.Stats()["fault:load-corrupt"]
 					var got []byte
 					var err error
